@@ -124,6 +124,28 @@ theorem dns_right_host {c : Cfg} {ans : Name → Addrs} (hres : ∀ n k a, c.res
     (∀ th ∈ s.threads, ∀ r ∈ th.rets, ∀ n e, (r = .hit n e ∨ r = .miss n e) → e.addrs = ans n) :=
   ⟨(invH_reachable hres h).host, (invH_reachable hres h).rets⟩
 
+/-- Every caller gets a result the SEQUENTIAL specification of its own op allows (`Spec.okRet`): in every reachable state the
+    ops of each thread split into finished ones, at most one in flight, and the rest; the finished ones explain the
+    thread's results one by one: a lookup of `n` returned `ans n` (cached or fresh), or failed — and then the resolver
+    call made for that very lookup failed; a delete returned nothing.
+    PARTIAL as a linearizability statement: the `cached` flag and the map contents are NOT claimed to be those of one
+    sequential execution under the same clock — two concurrent misses of one name both call the resolver and both
+    return `cached = false`, which a sequential run (second lookup hits) would not do; callers cannot observe the
+    difference in the addresses they get.  What is missing for full linearizability is a sequential witness order for
+    the flags; it does not exist for the code as written. -/
+theorem linearizable_lookup_partial {c : Cfg} {ans : Name → Addrs} (hres : ∀ n k a, c.resolver n k = some a → a = ans n)
+    {todos : List (List Op)} {t0 : Int} {s : State} (h : Reachable c todos t0 s) {i : Nat} {th : Thread}
+    (hth : s.threads[i]? = some th) :
+    ∃ ops doneRev infl, todos[i]? = some ops ∧ ops = doneRev.reverse ++ infl ++ th.todo ∧ infl.length ≤ 1 ∧
+      Spec.Explained c ans doneRev th.rets := by
+  obtain ⟨ops, h1, doneRev, infl, h2, h3, h4⟩ := invL_reachable hres h i th hth
+  refine ⟨ops, doneRev, infl, h1, h2, ?_, h3⟩
+  cases hpc : th.pc <;> rw [hpc] at h4 <;> simp only at h4
+  · subst h4; simp
+  · subst h4; simp
+  · obtain ⟨_, h4, _⟩ := h4; subst h4; simp
+  · obtain ⟨_, h4, _⟩ := h4; subst h4; simp
+
 /-- The mutex is held between steps exactly by a thread inside the eviction loop (mutual exclusion of the locked regions). -/
 theorem dns_mutex_owner {c : Cfg} {todos : List (List Op)} {t0 : Int} {s : State} (h : Reachable c todos t0 s) (i : Nat) :
     s.mutex = some i ↔ ∃ th, s.threads[i]? = some th ∧ ∃ n a, th.pc = .evict n a := (invA_reachable h).owner i
@@ -268,6 +290,8 @@ theorem exState_reachable : Reachable (exCfg 1) [[.lookup "a" 0], [.lookup "bb" 
   exact reachable_run .init [⟨0, 1, 0⟩, ⟨1, 2, 0⟩, ⟨0, 2, 0⟩, ⟨1, 2, 0⟩, ⟨0, 3, 0⟩, ⟨0, 3, 0⟩, ⟨1, 5, 0⟩] (by decide)
 
 example : (exState.entries.length : Int) ≤ max (exCfg 1).size 0 := dns_size_bounded exState_reachable
+example : Spec.Explained (exCfg 1) (fun n => [n.length]) [.lookup "a" 0] [.miss "a" ⟨[1], 103⟩] :=
+  .cons ⟨rfl, rfl⟩ .nil
 example : ∀ p ∈ exState.entries, p.2.addrs = [p.1.length] :=
   (dns_right_host (ans := fun n => [n.length]) (by intro n k a h; simp [exCfg, exResolver] at h; exact h.2.symm) exState_reachable).1
 /-- from `exState`, thread 1 evicts "a" (clock 6 is strictly later), stores "bb" and returns -/
@@ -321,6 +345,7 @@ theorem fetch_union {c : Fetch.Cfg} {order : List Server} (horder : ∀ x, x ∈
         have hl := inv.len
         rw [hws] at hl
         simp only [List.length_nil, numWorkers] at hl
+        have hpos : 0 < VGen.fetchMaxWorkers := by decide
         have : order.length = 0 := by
           split at hl <;> omega
         have : order = [] := List.eq_nil_of_length_eq_zero this
@@ -519,5 +544,41 @@ example : (do let s1 ← estep 42 (construct 42 none 2) 1; let s2 ← estep 42 s
     some (some 42, [(0, 42), (1, 42)]) := by decide
 
 end EventID
+
+/-! ## regenerated obligations: the synchronisation skeleton of the modelled functions
+
+`VGen.conc*` are extracted from /repo's source on every run (tools/extract/conc.go): the calls that delimit the atomic
+regions, loop conditions, and the conditions on size / expiry, in source order.  The models above were written against
+exactly these skeletons; a change of the locking structure (a dropped Lock, a resolver call moved inside the mutex, a
+different loop condition, a write in an event accessor) breaks one of these kernel-checked equalities even if no
+explored schedule shows a difference. -/
+
+/-- region 1 (Lock … Unlock, stale entries deleted inside), the resolver call with no lock held, the disabled-cache guard,
+    then Lock / deferred Unlock around the eviction loop `for len(c.entries) >= c.size` with its scan and delete -/
+theorem sync_skeleton_dns_lookup : VGen.concDnsLookup =
+    ["c.mutex.Lock()", "if time.Now().Before(entry.expires)", "c.mutex.Unlock()", "delete(c.entries, name)", "c.mutex.Unlock()",
+     "c.resolver.LookupIPAddr(ctx, name)", "if c.size <= 0", "c.mutex.Lock()", "defer c.mutex.Unlock()",
+     "for len(c.entries) >= c.size", "range c.entries", "if e.expires.Before(ts)", "delete(c.entries, name)"] := by decide
+
+/-- DialContext deletes the failed entry inside the mutex (the op `del`) -/
+theorem sync_skeleton_dns_dialcontext : VGen.concDnsDialContext =
+    ["range entry.addrs", "c.mutex.Lock()", "delete(c.entries, host)", "c.mutex.Unlock()"] := by decide
+
+/-- getTransport and reaper are each one region under transportsMutex; lastUsed is an atomic.Value -/
+theorem sync_skeleton_transport :
+    VGen.concGetTransport = ["f.transportsMutex.Lock()", "defer f.transportsMutex.Unlock()", "transport.lastUsed.Store(time.Now())"] ∧
+    VGen.concReaper = ["f.transportsMutex.Lock()", "defer f.transportsMutex.Unlock()", "range f.transports", "transport.lastUsed.Load()",
+      "if time.Since(since) > destinationTripperLifetime", "delete(f.transports, serverName)"] := by decide
+
+/-- FetchKeys: min(64, len(byServer)) workers, wait.Add before they start, queue filled and closed before they start,
+    deferred wait.Done, merge inside resultsMutex, wait.Wait before returning -/
+theorem sync_skeleton_fetchkeys : VGen.concFetchKeys =
+    ["range requests", "assign numWorkers := 64", "if len(byServer) < numWorkers", "assign numWorkers = len(byServer)",
+     "range localServerRequests", "wait.Add(numWorkers)", "range byServer", "close(pending)", "defer wait.Done()", "range ch",
+     "resultsMutex.Lock()", "range serverResults", "resultsMutex.Unlock()", "for i < numWorkers", "go worker(pending)",
+     "wait.Wait()"] ∧ 0 < VGen.fetchMaxWorkers := by decide
+
+/-- eventV2.EventID() contains no assignment to EventIDRaw: a pure read -/
+theorem sync_skeleton_eventid : VGen.concEventIDV2 = ["if e.EventIDRaw != \"\""] := by decide
 
 end V.C19
